@@ -5,7 +5,7 @@
    blocking point (`Condition.acquire`, `Condition.wait`) up to the next one.  `release` is not a
    blocking point (the code after it touches only thread-local data), so the statements
        acquire ; check ; count += 1 ; release        (_lock_sh, entry)
-       acquire ; count -= 1 ; del ; notify_all ; release   (_lock_sh, finally)
+       acquire ; count -= 1 ; del ; notify_all (whenever the thread's own count reaches 0) ; release   (_lock_sh, finally)
        acquire ; while others: wait                   (_lock_ex, up to wait / yield / raise)
    are single transitions.  The harness schedules the real code at this granularity (a virtual
    Condition/RLock parks the thread at every acquire / wait) and ADDITIONALLY right after a thread has
@@ -138,7 +138,7 @@ Definition stepo (s : state) (l : label) : option (state * obs) :=
       | ShExit :: rest =>
           if free_for s t then
             let s1 := set_cnt (set_stk s t rest) t (cnt s t - 1) in
-            if (cnt s t - 1 =? 0) && acq_empty s1 then Some (notify_all s1, OExitSh true)
+            if cnt s t - 1 =? 0 then Some (notify_all s1, OExitSh true)
             else Some (s1, OExitSh false)
           else None
       | ExReq b r :: rest =>
